@@ -1,8 +1,10 @@
 import ZenonVerif.Gen.Contracts
 /-
 L5 — embedded contracts that lock funds, as state machines over their storage entries.
-Stands for vm/embedded/implementation/{plasma,stake,htlc,pillars,sentinel,common}.go (ReceiveBlock of each method,
-followed line by line) and for vm/vm.go generateEmbeddedReceive / rollbackEmbedded (`vmStep`).
+Stands for vm/embedded/implementation/{plasma,stake,htlc,pillars,sentinel,common}.go, the stake entries of liquidity.go
+and the unwrap requests of bridge.go (ReceiveBlock of each method, followed line by line) and for vm/vm.go
+generateEmbeddedReceive / rollbackEmbedded (`vmStep`). Reward bookkeeping (Update / CollectReward), legacy pillar
+registration, votes, liquidity/bridge administration, wrap requests and fees are not modelled.
 
 A method is `σ → Ctx → Option (σ × List Payout)`: `none` = the Go method returns an error, the VM rolls the storage
 back and refunds the sent amount. Storage is an association list per key prefix (`put` = db.Put: overwrite,
@@ -214,6 +216,14 @@ def cancelStake (id : Hash) : Method Stake := fun s c =>
       if e.expiration > c.now then none
       else some ({ entries := put (c.sender, id) { e with revoke := c.now, amount := 0 } s.entries },
                  [⟨c.sender, znnTok, e.amount, .none⟩])
+
+/-- computeStakeRewardsForEpoch (the only effect on the entries): a cancelled entry — amount 0, revoke time set — is
+    deleted once its reward epoch has been paid; anything else is left alone. Which entries and when is decided by the
+    reward machinery (C11), here an input. -/
+def Stake.collect (s : Stake) (k : Addr × Hash) : Option Stake :=
+  match lookup k s.entries with
+  | none => none
+  | some e => if e.amount = 0 ∧ e.revoke ≠ 0 then some { entries := erase k s.entries } else none
 
 /-- Σ of all stake entries (ZNN); cancelled entries are recorded with amount 0 -/
 def Stake.owed (s : Stake) : Nat := total (·.amount) s.entries
@@ -580,6 +590,12 @@ def cancelLiquidityStake (id : Hash) : Method Liquidity := fun s c =>
       if e.expiration > c.now then none
       else some ({ s with entries := put (c.sender, id) { e with revoke := c.now, amount := 0 } s.entries },
                  [⟨c.sender, e.tok, e.amount, .none⟩])
+
+/-- computeLiquidityStakeRewardsForEpoch (the only effect on the entries): deletion of a cancelled entry -/
+def Liquidity.collect (s : Liquidity) (k : Addr × Hash) : Option Liquidity :=
+  match lookup k s.entries with
+  | none => none
+  | some e => if e.amount = 0 ∧ e.revoke ≠ 0 then some { s with entries := erase k s.entries } else none
 
 /-- BurnZnnMethod.ReceiveBlock (accelerator spork active; `isSpork` = the caller is the spork address, checked by
     ValidateSendBlock): burns `amount` ZNN out of the contract's balance, whatever that balance is made of. The Go
